@@ -4656,6 +4656,9 @@ struct Builder<'a, 'graph> {
   graph: &'graph mut ModuleGraph,
   state: PendingState<'a>,
   fill_pass_mode: FillPassMode,
+  /// What `fill_from_lockfile` put in the graph before the build. A restart
+  /// starts from this again instead of from an empty graph.
+  lockfile_fill: (BTreeMap<ModuleSpecifier, ModuleSpecifier>, PackageSpecifiers),
   executor: &'a dyn Executor,
   resolved_roots: BTreeSet<ModuleSpecifier>,
 }
@@ -4669,6 +4672,12 @@ impl<'a, 'graph> Builder<'a, 'graph> {
     let fill_pass_mode = match graph.roots.is_empty() {
       true => FillPassMode::AllowRestart,
       false => FillPassMode::NoRestart,
+    };
+    let lockfile_fill = match fill_pass_mode {
+      FillPassMode::AllowRestart => {
+        (graph.redirects.clone(), graph.packages.clone())
+      }
+      _ => Default::default(),
     };
     Self {
       in_dynamic_branch: options.is_dynamic,
@@ -4701,6 +4710,7 @@ impl<'a, 'graph> Builder<'a, 'graph> {
         ..Default::default()
       },
       fill_pass_mode,
+      lockfile_fill,
       executor: options.executor,
       resolved_roots: Default::default(),
     }
@@ -5365,8 +5375,11 @@ impl<'a, 'graph> Builder<'a, 'graph> {
     roots: Vec<ModuleSpecifier>,
     imports: Vec<ReferrerImports>,
   ) -> LocalBoxFuture<'_, ()> {
-    // if restarting is allowed, then the graph will have been empty at the start
+    // if restarting is allowed, then the graph will have been empty at the
+    // start, except for what was filled in from the lockfile
     *self.graph = ModuleGraph::new(self.graph.graph_kind);
+    self.graph.redirects = self.lockfile_fill.0.clone();
+    self.graph.packages = self.lockfile_fill.1.clone();
     self.state = PendingState::default();
     self.fill_pass_mode = FillPassMode::CacheBusting;
 
